@@ -214,6 +214,7 @@ def run(chk):
         chk.ok('C11-R5', 'infix-minus', sample='op_fix()==Infix => accept(Minus)')
     else:
         chk.bad('C11-R5', 'Lexer', 'infix-minus', 'no `accept(Minus, "-")` under op_fix() == Some(Infix)', LEX, None)
+    word_rule(chk, fx)
     return ('Table rules over the resolved match arms of TokenKind::precedence / category / is_right_associative, the precedence comparators of the two '
             'reduction loops in erg_parser::parse and the `-` arm of the lexer. Decides the table and comparator; the stack handling of the reduction '
             'loops beyond the comparator is not decided.'), {'exhaustive': True}
@@ -254,3 +255,52 @@ def is_opfix(m):
 
 def pats_all(p):
     return [q.get('d', '') for q in T.walk(p) if 'd' in q]
+
+
+def word_rule(chk, fx, rid='C11-word'):
+    """the precedence table is indexed by token kinds: a word operator must get its operator kind wherever it stands"""
+    chk.rule(rid, 'the token kind of a word (and, or, in, notin, contains, is!, isnot!, ref ..) is a function of the word alone: the kind Lexer::lex_symbol hands to the token is taken from '
+                  'its `match` over the text and from nothing else — no look at the character that follows or at the token before; `x and(y or z)` must parse like `x and (y or z)` '
+                  '(with `and` demoted to a Symbol before `(` it becomes the call `x(and(..))`)')
+    f = [g for g in fx.file(LEX)['fns'] if T.norm(g['path']) == 'Lexer::lex_symbol']
+    if not chk.need(len(f) == 1, 'Lexer::lex_symbol not found'):
+        return
+    f = f[0]
+    lets = {}
+    for n in T.walk(f['body']):
+        if n.get('k') == 'Let' and n.get('init') is not None:
+            for b in T.walk(n['pat']):
+                if b.get('k') == 'Bind':
+                    lets[b['id']] = n['init']
+    emits = [c for c in T.calls(f['body']) if c.get('k') == 'MCall' and c['n'] in ('emit_singleline_token', 'emit_multiline_token') and len(c['a']) >= 2]
+    kinds = []
+    for c in emits:
+        a = T.peel(c['a'][0])
+        # the last emit of the function: the word itself (earlier ones are error tokens)
+        kinds.append((c, a))
+    if not chk.need(kinds, 'lex_symbol: no token emission found'):
+        return
+    c, a = kinds[-1]
+    CONTEXT = ('peek_cur_ch', 'peek_next_ch', 'peek_prev_ch', 'peek_prev_prev_ch', 'prev_token', 'cursor', 'chars')
+
+    def context_in(e, seen=()):
+        for x in T.walk(e):
+            if x.get('k') == 'MCall' and x['n'] in CONTEXT:
+                return T.show(x)[:40]
+            if x.get('k') == 'Field' and x.get('n') in CONTEXT:
+                return T.show(x)[:40]
+            if x.get('k') == 'Local' and x.get('id') in lets and x['id'] not in seen:
+                r = context_in(lets[x['id']], seen + (x['id'],))
+                if r:
+                    return r
+        return None
+    ctxt = context_in(a)
+    table = any(m.get('k') == 'Match' and sum(1 for arm in m['arms'] if arm['pat'].get('k') == 'PLit' or arm['pat'].get('k') == 'POr') >= 8 for m in T.walk(f['body']))
+    if not chk.need(table, 'lex_symbol: the match over the text of the word was not found'):
+        return
+    if ctxt:
+        chk.bad(rid, 'Lexer::lex_symbol', 'context-dependent-kind', 'the kind of a word token depends on `%s`: a word operator followed by `(` (or in another context) is lexed as a plain '
+                'symbol, so the parser never looks it up in the precedence table — `x and(y or z)` becomes `x(and(or(y, z)))`, `i + j contains(k)` becomes `+(i, j(contains(k)))`' % ctxt,
+                LEX, c.get('l'))
+    else:
+        chk.ok(rid, 'kind-from-text', sample='emit(%s, ..): decided by the match over the text' % T.show(a)[:30])
